@@ -21,6 +21,7 @@ import (
 type frameSet struct {
 	heaps      map[string]bool // whole heaps (by key) that may be modified
 	allHeaps   bool            // every typed heap (but no ghost global unless listed)
+	except     map[string]bool // with allHeaps: heaps that are nevertheless preserved
 	everything bool
 	refs       []string        // object refs (entry-state terms) that may be modified, any heap
 	ghost      map[string]bool // ghost globals
@@ -28,7 +29,7 @@ type frameSet struct {
 
 // computeFrame evaluates the modifies clause of the function under verification at entry.
 func (fv *FV) computeFrame(st *State, env *Env) {
-	fs := &frameSet{ghost: map[string]bool{}, heaps: map[string]bool{}}
+	fs := &frameSet{ghost: map[string]bool{}, heaps: map[string]bool{}, except: map[string]bool{}}
 	fv.frame = fs
 	if !fv.fc.HasMod {
 		fs.everything = true
@@ -40,6 +41,20 @@ func (fv *FV) computeFrame(st *State, env *Env) {
 			fs.everything = true
 		case m.Op == "id" && m.Name == "allheaps":
 			fs.allHeaps = true
+		case m.Op == "id" && m.Name == "callerfresh":
+			// nothing that existed at entry
+		case m.Op == "call" && m.Name == "allexcept":
+			fs.allHeaps = true
+			for _, a := range m.Args {
+				for _, k := range fv.heapKeysOfTypeName(a.Name) {
+					fs.except[k] = true
+				}
+			}
+		case m.Op == "call" && m.Name == "anyobj":
+			fs.heaps["iface:"+m.Args[0].Name] = true
+			for _, k := range fv.implementorHeaps(m.Args[0].Name) {
+				fs.heaps[k] = true
+			}
 		case m.Op == "id" && fv.u.db.GGlobal[m.Name] != "":
 			fs.ghost[m.Name] = true
 		case m.Op == "call" && m.Name == "heap":
@@ -135,7 +150,7 @@ func (fv *FV) heapKeysOfTypeName(name string) []string {
 // touchUnless: the write happens only when skip is false.
 func (fv *FV) touchUnless(st *State, key, ref, what, skip string) {
 	fs := fv.frame
-	if fs == nil || fs.everything || fs.allHeaps || (key != "" && fs.heaps[key]) {
+	if fs == nil || fs.everything || (fs.allHeaps && !fs.except[key]) || (key != "" && fs.heaps[key]) {
 		return
 	}
 	g := fv.inFrame(ref)
@@ -155,10 +170,21 @@ func (fv *FV) touchGhost(st *State, name, what string) {
 	fv.addObl(st, "frame", fmt.Sprintf("frame:ghost-%s:%s#%d@%s", name, what, fv.nTouch, st.fr.fn.Name()), "false", "ghost global "+name+" is not in the modifies clause", nil)
 }
 
-func (fv *FV) touchAllHeaps(st *State, what string) {
+func (fv *FV) touchAllHeaps(st *State, what string, except map[string]bool) {
 	fs := fv.frame
-	if fs == nil || fs.everything || fs.allHeaps {
+	if fs == nil || fs.everything {
 		return
+	}
+	if fs.allHeaps {
+		ok := true
+		for k := range fs.except {
+			if !except[k] {
+				ok = false
+			}
+		}
+		if ok {
+			return
+		}
 	}
 	fv.nTouch++
 	fv.addObl(st, "frame", fmt.Sprintf("frame:allheaps:%s#%d@%s", what, fv.nTouch, st.fr.fn.Name()), "false", "callee may modify any heap object; the caller's modifies clause is narrower", nil)
@@ -185,7 +211,7 @@ func (fv *FV) havocLoopHeaps(st *State, keys []string) {
 		}
 		n := fv.havocHeap(st, k)
 		fs := fv.frame
-		if fs != nil && !fs.everything && !fs.allHeaps && !fs.heaps[k] {
+		if fs != nil && !fs.everything && !(fs.allHeaps && !fs.except[k]) && !fs.heaps[k] {
 			var ex []string
 			for _, r := range fs.refs {
 				ex = append(ex, fmt.Sprintf("(not (= r %s))", r))
@@ -276,7 +302,7 @@ func (fv *FV) resolveDyn(st *State, recv Val, m *types.Func) (target *ssa.Functi
 		}(i)
 	}
 	go func() {
-		res[len(cands)] = fv.quickEntails(st, "(and "+strings.Join(ids, " ")+")")
+		res[len(cands)] = fv.quickEntails(st, fmt.Sprintf("(not (lib_type %s))", ityp))
 		done <- len(cands)
 	}()
 	for i := 0; i <= len(cands); i++ {
@@ -284,9 +310,6 @@ func (fv *FV) resolveDyn(st *State, recv Val, m *types.Func) (target *ssa.Functi
 	}
 	if os.Getenv("GOVC_DEBUG") != "" {
 		fmt.Fprintf(os.Stderr, "resolveDyn %s in %s: %v\n", m.Name(), fv.fc.Key, res)
-	}
-	if res[len(cands)] {
-		return nil, nil, true
 	}
 	for i, c := range cands {
 		if res[i] {
@@ -298,6 +321,9 @@ func (fv *FV) resolveDyn(st *State, recv Val, m *types.Func) (target *ssa.Functi
 				}
 			}
 		}
+	}
+	if res[len(cands)] {
+		return nil, nil, true
 	}
 	return nil, nil, false
 }
@@ -315,4 +341,25 @@ func (fv *FV) havocGhostInFrame(st *State) {
 		s := fv.u.db.GGlobal[n]
 		st.ghost[n] = Val{T: fv.fresh("gg_"+n, s), S: s}
 	}
+}
+
+// implementorHeaps: heap keys of the struct types whose pointer implements the named interface.
+func (fv *FV) implementorHeaps(name string) []string {
+	t := fv.parseTypeName(name)
+	iface, ok := t.Underlying().(*types.Interface)
+	if !ok {
+		fv.specErr("anyobj(%q): not an interface", name)
+	}
+	var out []string
+	for _, c := range fv.eng.implementors(iface) {
+		if p, ok := c.(*types.Pointer); ok {
+			if fv.fn.Pkg != nil {
+				if n, ok := p.Elem().(*types.Named); ok && n.Obj().Pkg() != nil && fv.eng.normPkgPath(n.Obj().Pkg().Path()) == "GEN" && n.Obj().Pkg() != fv.fn.Pkg.Pkg {
+					continue
+				}
+			}
+			out = append(out, fv.u.sortOf(p.Elem(), fv.bv))
+		}
+	}
+	return out
 }
